@@ -6,6 +6,8 @@ macro_rules! cfg {
         c19::int_conversions::<$fam::I<$n>>($run);
         c19::float_conversions::<$fam::U<$n>>($run);
         c19::float_conversions::<$fam::I<$n>>($run);
+        c19::as_primitive_extras::<$fam::U<$n>, $fam::I<3>, $fam::U<2>>($run);
+        c19::as_primitive_extras::<$fam::I<$n>, $fam::U<5>, $fam::I<1>>($run);
     }};
 }
 
